@@ -313,7 +313,7 @@ pub fn inject(op: &OpDef, w: &mut Wallet, fx: &Fixture, pre: &db::Snapshot, m: &
 
 fn tier_ops(tier: Tier) -> Vec<&'static str> {
     match tier {
-        Tier::Quick => vec!["scan1@mid", "tip@fresh", "truncate@mid", "lock@mid", "create_account@fresh", "sapling_roots@fresh", "orchard_roots@fresh", "next_address@mid", "tip_beyond@mid", "mig_replace@none", "mig_supersede@live_locked", "mig_update_tx_mined@live", "lock_conflict@locked", "rewind_chain_state@full", "rewind_refused@sapling-checkpoints-above-only", "put_utxo_mined@mid", "store_sent_batch_p0_p1@c08-full", "store_decrypted_p1_unmined@c08-pending0", "tx_status_not_recognized@c08-pending0"],
+        Tier::Quick => vec!["scan1@mid", "tip@fresh", "truncate@mid", "lock@mid", "create_account@fresh", "sapling_roots@fresh", "orchard_roots@fresh", "next_address@mid", "tip_beyond@mid", "mig_replace@none", "mig_supersede@live_locked", "mig_update_tx_mined@live", "lock_conflict@locked", "rewind_chain_state@full", "rewind_refused@sapling-checkpoints-above-only", "put_utxo_mined@mid", "wallet_and_extension_write@mid-ext", "store_sent_batch_p0_p1@c08-full", "store_decrypted_p1_unmined@c08-pending0", "tx_status_not_recognized@c08-pending0"],
         Tier::Thorough => vec![],
     }
 }
